@@ -26,7 +26,7 @@ func init() {
 	})
 	register(&Prop{
 		ID: "C20",
-		Rules: []*Rule{scoped(rAlwaysWraps, "WrapWithGrpcCode and the status helpers always attach the code they are given", func(_ *core.Ctx, k string) bool { return containsAny(k, "Grpc", "status.") }), rGrpcFlow, scoped(rDecline, "the decoders of the gRPC code and status types", func(_ *core.Ctx, k string) bool { return containsAny(k, "extgrpc", "status") }), scoped(rCodeGetter, "the gRPC code accessor", func(_ *core.Ctx, k string) bool { return strings.Contains(k, "GetGrpcCode") }), {Name: "R-CODEC", Doc: rCodec.Doc + " (restricted to the gRPC code wrapper and the gRPC status types)", Run: func(c *core.Ctx) {
+		Rules: []*Rule{forwardScoped("EncodeError", "DecodeError"), scoped(rAlwaysWraps, "WrapWithGrpcCode and the status helpers always attach the code they are given", func(_ *core.Ctx, k string) bool { return containsAny(k, "Grpc", "status.") }), rGrpcFlow, scoped(rDecline, "the decoders of the gRPC code and status types", func(_ *core.Ctx, k string) bool { return containsAny(k, "extgrpc", "status") }), scoped(rCodeGetter, "the gRPC code accessor", func(_ *core.Ctx, k string) bool { return strings.Contains(k, "GetGrpcCode") }), {Name: "R-CODEC", Doc: rCodec.Doc + " (restricted to the gRPC code wrapper and the gRPC status types)", Run: func(c *core.Ctx) {
 			runCodec(c, func(cp *codecPair) bool {
 				return strings.Contains(cp.Name, "extgrpc") || strings.Contains(cp.Name, "status.")
 			})
@@ -36,7 +36,7 @@ func init() {
 	})
 	register(&Prop{
 		ID: "C19",
-		Rules: []*Rule{scoped(rFormatArg, "a stored hint / link text is printed, never used as a format", func(_ *core.Ctx, k string) bool { return containsAny(k, "hintdetail", "issuelink", "telemetrykeys") }), scoped(rEffect, "the accessors never rewrite the annotation they read", func(_ *core.Ctx, k string) bool { return containsAny(k, "keys", "hint", "detail", "IssueLink", "tags", "telemetry", "SafeDetails") }), rPassThroughGuard, rLayerGetter, scoped(rOrder, "the hint/detail/link/tag/safe-detail accessors", func(_ *core.Ctx, k string) bool { return !strings.Contains(k, "GetOneLineSource") }), rHintProviders, rDedup, rFlattenSep, rGuardField, scoped(rFormatStored, "the hint and detail constructors", func(_ *core.Ctx, k string) bool { return containsAny(k, "Hint", "Detail", "printf-like") }), scoped(rAlwaysWraps, "the hint/detail/link/key/tag/safe-detail constructors", func(_ *core.Ctx, k string) bool {
+		Rules: []*Rule{forwardScoped("WithHint*", "WithDetail*", "WithIssueLink", "UnimplementedError*", "WithTelemetry", "WithContextTags", "WithSafeDetails", "GetAll*", "Flatten*", "GetTelemetryKeys", "GetContextTags", "HasIssueLink", "IsIssueLink", "HasUnimplementedError", "IsUnimplementedError"), scoped(rFormatArg, "a stored hint / link text is printed, never used as a format", func(_ *core.Ctx, k string) bool { return containsAny(k, "hintdetail", "issuelink", "telemetrykeys") }), scoped(rEffect, "the accessors never rewrite the annotation they read", func(_ *core.Ctx, k string) bool { return containsAny(k, "keys", "hint", "detail", "IssueLink", "tags", "telemetry", "SafeDetails") }), rPassThroughGuard, rLayerGetter, scoped(rOrder, "the hint/detail/link/tag/safe-detail accessors", func(_ *core.Ctx, k string) bool { return !strings.Contains(k, "GetOneLineSource") }), rHintProviders, rDedup, rFlattenSep, rGuardField, scoped(rFormatStored, "the hint and detail constructors", func(_ *core.Ctx, k string) bool { return containsAny(k, "Hint", "Detail", "printf-like") }), scoped(rAlwaysWraps, "the hint/detail/link/key/tag/safe-detail constructors", func(_ *core.Ctx, k string) bool {
 			return containsAny(k, "WithHint", "WithDetail", "WithIssueLink", "WithTelemetry", "WithContextTags", "WithSafeDetails", "UnimplementedError")
 		}), scoped(rStdIdentity, "the accessor packages", func(_ *core.Ctx, k string) bool {
 			return containsAny(k, "hintdetail.", "issuelink.", "telemetrykeys.", "contexttags.", "safedetails.", "errbase.GetAllSafeDetails")
@@ -49,7 +49,7 @@ func init() {
 	})
 	register(&Prop{
 		ID: "C12",
-		Rules: []*Rule{rPassThroughGuard, scoped(rEffect, "read-only operations (accessors, SafeDetails, report building) never rewrite what an error carries as safe details", func(_ *core.Ctx, k string) bool {
+		Rules: []*Rule{forwardScoped("WithSafeDetails", "GetAllSafeDetails", "GetSafeDetails", "WithTelemetry", "WithDomain", "New*", "Errorf", "Wrap*", "WithMessage*"), rPassThroughGuard, scoped(rEffect, "read-only operations (accessors, SafeDetails, report building) never rewrite what an error carries as safe details", func(_ *core.Ctx, k string) bool {
 			return containsAny(k, "SafeDetails", "safeDetails", "tags", "keys", "details")
 		}), rRetain, rErrRefs, rHideKeep, rLoopAlias, rAlwaysWraps, rMemo, scoped(rStdIdentity, "formatting and reporting code", func(_ *core.Ctx, k string) bool {
 			return containsAny(k, "errutil.", "errbase.", "report.", "withstack.", "safedetails.", "barriers.", "secondary.")
@@ -165,7 +165,7 @@ func init() {
 	})
 	register(&Prop{
 		ID: "C16",
-		Rules: []*Rule{rStackParse, scoped(rJoinNode, "JoinWithDepth always goes through WithStackDepth: no shortcut returns an argument without the stack of the call", func(_ *core.Ctx, k string) bool { return strings.Contains(k, "JoinWithDepth") }), rDepth, rMemo, rFuncName, rStackWhole, scoped(rAlwaysWraps, "the stack-capturing constructors: a stack is captured at every call, never skipped because of what the error already carries", func(_ *core.Ctx, k string) bool {
+		Rules: []*Rule{forwardScoped("New*", "Errorf", "Wrap*", "WithStack*", "Join*", "AssertionFailed*", "NewAssertionErrorWithWrappedErrf", "HandleAsAssertionFailure*", "UnimplementedError*", "GetOneLineSource", "GetReportableStackTrace"), rStackParse, scoped(rJoinNode, "JoinWithDepth always goes through WithStackDepth: no shortcut returns an argument without the stack of the call", func(_ *core.Ctx, k string) bool { return strings.Contains(k, "JoinWithDepth") }), rDepth, rMemo, rFuncName, rStackWhole, scoped(rAlwaysWraps, "the stack-capturing constructors: a stack is captured at every call, never skipped because of what the error already carries", func(_ *core.Ctx, k string) bool {
 			return containsAny(k, "WithStack", "Wrap", "AssertionFail", "AssertionError", "HandleAsAssertion")
 		}), scoped(rBarrierCtor, "the assertion-failure constructors", func(_ *core.Ctx, k string) bool { return containsAny(k, "Assertion") }), scoped(rStackEmpty, "the one-line source parser", func(_ *core.Ctx, k string) bool { return strings.Contains(k, "getOneLineSourceFromPrintedStack") }), rOrderOneLine, scoped(rOneParser, "GetOneLineSource", func(_ *core.Ctx, k string) bool {
 			return containsAny(k, "GetOneLineSource", "getOneLineSourceFromPkgStack")
